@@ -29,8 +29,6 @@ def graphOKb (all : List PAtom) : Bool :=
 
 def wfb (m : PMol) : Bool :=
   !m.atoms.isEmpty && decide (m.atoms.length ≤ 4095) && m.atoms.all atomOKb && graphOKb m.atoms &&
-  m.atoms.all (fun a => a.nbrs.all fun nb => decide (nb.m < 4096)) &&
-  decide (2 * (firstSeen [] m.atoms).length = (m.atoms.map (·.nbrs.length)).sum) &&
   decide (ctCount m.atoms ≤ 4095) &&
   (firstSeen [] m.atoms).all fun p =>
     !p.2.stereo.isSome ||
